@@ -166,7 +166,7 @@ class PropertyRun:
             ex = Exec(prog, registry)
             t = time.time()
             try:
-                rep.src_hash = prog.source_hash(q)
+                rep.src_hash = prog.source_hash(registry.contracts[q].qual)
                 obls = ex.verify(q)
                 per_fn[q] = (ex, obls)
                 rep.discont = sorted(set(ex.discont))[:40]
